@@ -1,7 +1,7 @@
 """R-C01.6  what a basic block outputs is what each successor declares as inputs (order included).
 
-The tail of `compile_bb` that decides the block outputs (from the declaration of `outputs` to
-`set_block_outputs`) is interpreted on symbolic signatures: 1 or 2 successors, rows over four
+`compile_bb` is interpreted as a whole (the HUGR builder, the data-flow container and the statement / expression compilers
+are recorder tokens) on symbolic signatures: 1 or 2 successors, rows over four
 variables covering every copy/drop class with names chosen against the class order
 (z: copyable+droppable, a: droppable only, m: linear, b: copyable only), the droppable part of
 each row chosen independently per successor, the non-droppable part shared (the linearity checker
@@ -39,14 +39,10 @@ def run(ctx: Ctx) -> None:
     idx = ctx.idx
     cb = idx.find_func("compile_bb", "guppylang_internals.compiler.cfg_compiler")
     key = f"{cb.qualname}#outputs-match-successor-inputs"
-    body = cb.node.body
-    start = next((i for i, s in enumerate(body) if isinstance(s, ast.AnnAssign) and isinstance(s.target, ast.Name) and s.target.id == "outputs"), None)
-    if start is None:
-        start = next((i for i, s in enumerate(body) if isinstance(s, ast.If) and "bb.successors" in ast.unparse(s.test) and "outputs" in ast.unparse(s)), None)
-    if start is None:
-        ctx.undecided("R-C01.6", key, cb.where, "the part of compile_bb that computes `outputs` was not found")
-        return
-    stmts = [s for s in body[start:] if not isinstance(s, ast.Return)]
+    # the whole function is interpreted (not a slice of it: locals hoisted above the output part by a refactoring stay bound);
+    # everything before the output part is modelled by recorders on the builder / container tokens
+    stmts = cb.node.body
+    params = [a.arg for a in cb.node.args.args]
     drop = [n for n, (_, d) in VARS.items() if d]
     nondrop = [n for n, (_, d) in VARS.items() if not d]
     subsets = lambda xs: [list(c) for r in range(len(xs) + 1) for c in itertools.combinations(xs, r)]  # noqa: E731
@@ -70,24 +66,28 @@ def run(ctx: Ctx) -> None:
                 rec["sum_rows"] = kw.get("output_vars", pos[1] if len(pos) > 1 else None)
                 return Tok("sum_port", __ident__=1)
 
-            def h_set(node, ev, env, rec=rec):
-                vals = []
-                for a in node.args:
-                    if isinstance(a, ast.Starred):
-                        vals.extend(ev.ev(a.value, env))
-                    else:
-                        vals.append(ev.ev(a, env))
-                rec["outputs"] = vals[1:]
+            def m_set(recv, vals, rec=rec):
+                rec["outputs"] = list(vals[1:])
                 rec["port"] = vals[0]
                 return None
 
             succs = [Tok(f"succ{i}", is_exit=False, __ident__=1) for i in range(len(rows))]
-            bb = Tok("bb", successors=succs, sig=Tok("sig", output_rows=rows, __ident__=1), branch_pred=Tok("pred"), __ident__=1)
+            bb = Tok("bb", successors=succs, sig=Tok("sig", input_row=[], output_rows=rows, __ident__=1), branch_pred=Tok("pred"), is_exit=False, reachable=True,
+                     statements=[], __ident__=1)
+            port = lambda nm: Tok(nm, __methods__={"out_port": lambda r, a: Tok("out_port")}, __ident__=1)  # noqa: E731
+            block = Tok("block", input_node=[], __methods__={"set_block_outputs": m_set}, __ident__=1)
+            hugr = Tok("hugr", __methods__={"port_type": lambda r, a: Tok("OpaqueBool")}, __ident__=1)
+            builder = Tok("builder", hugr=hugr, exit=Tok("exit_node"), __methods__={"add_entry": lambda r, a: block, "add_block": lambda r, a: block}, __ident__=1)
+            dfg_builder = Tok("dfg.builder", __methods__={"add_op": lambda r, a: port("unit_sum_port")}, __ident__=1)
+            dfg = Tok("dfg", builder=dfg_builder, __getitem__=lambda p: p, __ident__=1)
+            dfg.attrs["__methods__"] = {"__setitem__": lambda r, a: None}
             env = {
-                "bb": bb, "branch_port": Tok("unit_sum_port", __ident__=1), "dfg": Tok("dfg", __getitem__=lambda p: p, __ident__=1),
-                "block": Tok("block", __ident__=1),
+                params[0]: bb, params[1]: builder, params[2]: True, params[3]: Tok("ctx", __ident__=1),
+                "DFContainer": lambda node, ev, env: dfg,
+                "StmtCompiler": lambda node, ev, env: Tok("stmt_compiler", __methods__={"compile_stmts": lambda r, a: a[1]}),
+                "ExprCompiler": lambda node, ev, env: Tok("expr_compiler", __methods__={"compile": lambda r, a: port("pred_port")}),
                 "sort_vars": lambda node, ev, env: _spec_sort(ev.ev(node.args[0], env)),
-                "choose_vars_for_tuple_sum": h_choose, "block.set_block_outputs": h_set,
+                "choose_vars_for_tuple_sum": h_choose,
             }
             ev = PyEval(idx, cb.module.name)
             try:
